@@ -31,6 +31,7 @@ type nameState struct {
 	published   *cd.Meta
 	failed      bool
 	attempts    int
+	failures    int // creation attempts that ended with an error
 }
 
 func NewTraceSCR(maxDepth, maxCalls int) *TraceSCR {
@@ -154,12 +155,15 @@ func (t *TraceSCR) GetSingletonOrCreateByFactory(name string, f container.Single
 	s.failed = false
 	if s.creating == 1 {
 		s.early, s.factoryRuns = nil, 0
+	} else {
+		t.bad("creation of '%s' was started again while its creation is still running (nothing of it was visible to the request that came back)", name)
 	}
 	m, err := t.inner.GetSingletonOrCreateByFactory(name, f)
 	t.Depth--
 	s.creating--
 	if err != nil || m == nil {
 		s.failed = true
+		s.failures++
 		s.early = nil
 		if s.creating == 0 && t.inner.IsSingletonCurrentlyInCreation(name) {
 			t.bad("'%s' is still reported as in creation after its creation failed", name)
@@ -179,6 +183,14 @@ func (t *TraceSCR) IsSingletonCurrentlyInCreation(name string) bool {
 }
 
 // Published tells whether some creation attempt of name has succeeded.
+// Failures is the number of creation attempts of name that ended with an error.
+func (t *TraceSCR) Failures(name string) int {
+	if s := t.st[name]; s != nil {
+		return s.failures
+	}
+	return 0
+}
+
 func (t *TraceSCR) Published(name string) bool {
 	s := t.st[name]
 	return s != nil && s.published != nil
